@@ -44,6 +44,17 @@ EXTRA = [
                                 Rule('P', S(Str('p'), Asg('n', '=', Ref('INT'))))], tags=['memo']),
     corpus.G('memo-pred', [Rule('M', S(Star(S(corpus.Not_(Ref('E')), Asg('xs', '+=', Ref('X')))), Asg('e', '=', Ref('E')))),
                            Rule('X', Asg('n', '=', Ref('ID'))), Rule('E', S(Str('end'), Asg('k', '?=', Str('!'))))], tags=['memo']),
+    # the operand of a negative lookahead is tried again, at the same position, as a later alternative:
+    # the furthest failure of a rejected input lies inside the rule whose failure the cache answers
+    corpus.G('memo-pred-retry', [Rule('M', S(Opt(Str('u')), Asg('ss', '+=', Ref('T')))),
+                                 Rule('T', A(Ref('As'), Ref('Ca'))),
+                                 Rule('As', S(corpus.Not_(Ref('Ca')), Asg('t', '=', Ref('ID')), Str('='), Asg('v', '=', Ref('INT')))),
+                                 Rule('Ca', S(Asg('n', '=', Ref('ID')), Str('('), Asg('a', '=', Ref('INT')), Str(')')))],
+             tags=['memo']),
+    corpus.G('memo-and-pred-retry', [Rule('M', S(Opt(Str('u')), Asg('ss', '+=', Ref('T')))),
+                                     Rule('T', A(S(corpus.And_(Ref('Ca')), Asg('c', '=', Ref('Ca')), Str('!')), Ref('Ca'))),
+                                     Rule('Ca', S(Asg('n', '=', Ref('ID')), Str('('), Asg('a', '=', Ref('INT')), Str(')')))],
+             tags=['memo']),
 ]
 
 
